@@ -31,6 +31,7 @@ type vUpload struct {
 	declSize int64
 	logical  []byte // the logical bytes actually delivered
 	badWire  string // "", "garbage", "truncstream", "trailing-garbage"
+	maxChunk int    // splice paths: largest chunk to upload (0 = no cap)
 }
 
 func vMakeUpload(rng *vRand, path, kind string, n int) vUpload {
@@ -180,6 +181,9 @@ func (f *vFix) vDoUpload(t testing.TB, rng *vRand, u vUpload, web *vWeb) (acked 
 		var cds []*pb.Digest
 		parts := 1 + rng.Intn(3)
 		per := len(u.logical)/parts + 1
+		if u.maxChunk > 0 && per > u.maxChunk {
+			per = u.maxChunk
+		}
 		for off := 0; off < len(u.logical); off += per {
 			end := off + per
 			if end > len(u.logical) {
@@ -218,10 +222,17 @@ func (f *vFix) vDoUpload(t testing.TB, rng *vRand, u vUpload, web *vWeb) (acked 
 		key := vSha(append([]byte("ackey2"), u.data...))
 		_, err := f.ac.UpdateActionResult(ctx, &pb.UpdateActionResultRequest{ActionDigest: &pb.Digest{Hash: key, SizeBytes: 10}, ActionResult: ar})
 		return err == nil, vGRPCCode(err)
-	case "fetchBlob":
+	case "fetchBlob", "fetchBlobMirrorLast", "fetchBlobMirrorFirst":
 		raw, _ := hex.DecodeString(u.declHash)
 		uri := web.serve(u.logical, u.kind == "abort")
-		resp, err := f.asset.FetchBlob(ctx, &asset.FetchBlobRequest{Uris: []string{uri},
+		uris := []string{uri}
+		dead := web.srv.URL + "/no-such-object" // a mirror that answers 404
+		if u.path == "fetchBlobMirrorLast" {
+			uris = []string{uri, dead}
+		} else if u.path == "fetchBlobMirrorFirst" {
+			uris = []string{dead, uri}
+		}
+		resp, err := f.asset.FetchBlob(ctx, &asset.FetchBlobRequest{Uris: uris,
 			Qualifiers: []*asset.Qualifier{{Name: "checksum.sri", Value: "sha256-" + base64.StdEncoding.EncodeToString(raw)}}})
 		if err != nil {
 			return false, vGRPCCode(err)
@@ -290,13 +301,13 @@ func TestVerifServerWritePaths(t *testing.T) {
 	defer rec.Close(t)
 	web := vNewWeb()
 	defer web.srv.Close()
-	paths := []string{"httpPut", "httpPutCL", "httpPutZstd", "batch", "batchZstd", "batchOther", "bsWrite", "bsWriteZstd", "splice", "spliceNoDigest", "acInline", "acInlineStdout", "fetchBlob"}
+	paths := []string{"httpPut", "httpPutCL", "httpPutZstd", "batch", "batchZstd", "batchOther", "bsWrite", "bsWriteZstd", "splice", "spliceNoDigest", "acInline", "acInlineStdout", "fetchBlob", "fetchBlobMirrorLast", "fetchBlobMirrorFirst"}
 	kindsFor := func(p string) []string {
 		ks := []string{"exact", "flipped", "truncated", "extended", "wrongSize", "wrongSizeSmaller", "wrongHash", "knownWrongSize"}
 		if strings.HasSuffix(p, "Zstd") {
 			ks = append(ks, "garbage", "truncstream", "trailing-garbage", "checksum")
 		}
-		if strings.HasPrefix(p, "bsWrite") || p == "fetchBlob" {
+		if strings.HasPrefix(p, "bsWrite") || strings.HasPrefix(p, "fetchBlob") {
 			ks = append(ks, "abort")
 		}
 		if p == "batchOther" {
@@ -325,7 +336,7 @@ func TestVerifServerWritePaths(t *testing.T) {
 					}
 					rec.Case()
 					u := vMakeUpload(rng, p, k, n)
-					if p == "fetchBlob" {
+					if strings.HasPrefix(p, "fetchBlob") {
 						u.declSize = int64(len(u.data)) // FetchBlob has no declared size
 					}
 					if pre, _ := f.vMissing(u.declHash, u.declSize); !pre {
@@ -346,7 +357,7 @@ func TestVerifServerWritePaths(t *testing.T) {
 					rec.Distinct(fmt.Sprintf("%s:%s:%s:%d", mode, p, k, n))
 					rp := map[string]interface{}{"mode": mode, "path": p, "kind": k, "size": n, "detail": detail}
 					good := u.good()
-					if p == "fetchBlob" && (k == "wrongSize" || k == "wrongSizeSmaller" || k == "knownWrongSize") {
+					if strings.HasPrefix(p, "fetchBlob") && (k == "wrongSize" || k == "wrongSizeSmaller" || k == "knownWrongSize") {
 						good = true // FetchBlob has no declared size: these are plain exact uploads
 					}
 					if (p == "splice") && (k == "wrongSize" || k == "wrongSizeSmaller" || k == "knownWrongSize") {
@@ -400,7 +411,7 @@ func TestVerifServerHardLimit(t *testing.T) {
 	rng := vNewRand("srvhard")
 	web := vNewWeb()
 	defer web.srv.Close()
-	paths := []string{"httpPut", "httpPutCL", "httpPutZstd", "batch", "batchZstd", "bsWrite", "bsWriteZstd", "acInline", "acInlineStdout", "fetchBlob"}
+	paths := []string{"httpPut", "httpPutCL", "httpPutZstd", "batch", "batchZstd", "bsWrite", "bsWriteZstd", "acInline", "acInlineStdout", "fetchBlob", "fetchBlobMirrorLast", "fetchBlobMirrorFirst"}
 	for _, mode := range []string{"uncompressed", "zstd"} {
 		for round := 0; round < vScale(3, 20); round++ {
 			f := vNewFix(t, vFixOpts{mode: mode, maxSize: 1 << 20, hardLimit: 1 << 20, validateAC: true})
@@ -432,6 +443,34 @@ func TestVerifServerHardLimit(t *testing.T) {
 					rec.Violation("C17", "hard.stored."+p, "refused upload is present afterwards", nil)
 				}
 			}
+			// SpliceBlob of chunks that are already stored: the spliced blob is a new item
+			if len(stored) >= 2 {
+				for _, withDigest := range []bool{true, false} {
+					rec.Case()
+					whole := append(append([]byte(nil), stored[0]...), stored[1]...)
+					req := &pb.SpliceBlobRequest{ChunkDigests: []*pb.Digest{{Hash: vSha(stored[0]), SizeBytes: int64(len(stored[0]))}, {Hash: vSha(stored[1]), SizeBytes: int64(len(stored[1]))}}}
+					p := "spliceNoDigest"
+					if withDigest {
+						p = "splice"
+						req.BlobDigest = &pb.Digest{Hash: vSha(whole), SizeBytes: int64(len(whole))}
+					}
+					_, err := f.cas.SpliceBlob(context.Background(), req)
+					detail := vGRPCCode(err)
+					rec.Note(fmt.Sprintf("%s mode=%s -> %s", p, mode, detail))
+					rec.Count(p + "." + detail)
+					rec.Distinct(fmt.Sprintf("%s:%s:%d", p, mode, round))
+					if err == nil {
+						rec.Violation("C17", "hard.accepted."+p, p+" accepted although current size + blob exceeds max_size_hard_limit", nil)
+						continue
+					}
+					if detail != "ResourceExhausted" {
+						rec.Violation("C17", "hard.code."+p, fmt.Sprintf("%s refused by the hard limit answered %s, want RESOURCE_EXHAUSTED", p, detail), nil)
+					}
+					if miss, _ := f.vMissing(vSha(whole), int64(len(whole))); !miss {
+						rec.Violation("C17", "hard.stored."+p, "refused splice is present afterwards", nil)
+					}
+				}
+			}
 			_, _, after, _ := f.cache.Stats()
 			if after < before {
 				rec.Violation("C17", "hard.evicted", fmt.Sprintf("refused uploads evicted entries: %d -> %d", before, after), nil)
@@ -445,7 +484,7 @@ func TestVerifServerHardLimit(t *testing.T) {
 			f.Close()
 		}
 	}
-	rec.Set("rule", "cache filled to max_size_hard_limit (= max_size, so that eviction alone could make room) x 10 write paths x both storage modes")
+	rec.Set("rule", "cache filled to max_size_hard_limit (= max_size, so that eviction alone could make room) x 14 write paths (FetchBlob with one and two origins, SpliceBlob over stored chunks) x both storage modes")
 }
 
 // C18 at the server level: max_blob_size is a limit on the logical size, on every write path,
@@ -457,8 +496,8 @@ func TestVerifServerBlobLimits(t *testing.T) {
 	rng := vNewRand("srvlimit")
 	web := vNewWeb()
 	defer web.srv.Close()
-	paths := []string{"httpPut", "httpPutCL", "httpPutZstd", "batch", "batchZstd", "bsWrite", "bsWriteZstd", "acInline", "acInlineStdout", "fetchBlob"}
-	rec.Set("rule", "max_blob_size in {1, 4096, 70000} x 10 write paths x both storage modes x logical size in {limit-1, limit, limit+1}, incompressible and compressible data")
+	paths := []string{"httpPut", "httpPutCL", "httpPutZstd", "batch", "batchZstd", "bsWrite", "bsWriteZstd", "acInline", "acInlineStdout", "fetchBlob", "fetchBlobMirrorLast", "fetchBlobMirrorFirst", "splice", "spliceNoDigest"}
+	rec.Set("rule", "max_blob_size in {1, 4096, 70000} x 14 write paths x both storage modes x logical size in {limit-1, limit, limit+1}, incompressible and compressible data")
 	for _, mode := range []string{"zstd", "uncompressed"} {
 		for _, limit := range []int{1, 4096, 70000} {
 			f := vNewFix(t, vFixOpts{mode: mode, maxBlob: int64(limit), validateAC: true})
@@ -480,6 +519,16 @@ func TestVerifServerBlobLimits(t *testing.T) {
 								copy(d[1:], fmt.Sprintf("%07d", rng.Intn(9999999)))
 							}
 							u = vUpload{path: p, kind: "good", data: d, declHash: vSha(d), declSize: int64(n), logical: d}
+						}
+						if strings.HasPrefix(p, "splice") {
+							if n < 2 {
+								continue // the empty/one-byte splice is covered by the write-path harness
+							}
+							u.path = p
+							u.maxChunk = (n + 1) / 2 // at least two chunks, each within the limit
+							if u.maxChunk > limit {
+								u.maxChunk = limit
+							}
 						}
 						acked, detail := f.vDoUpload(t, rng, u, web)
 						sig := fmt.Sprintf("%s.%s limit=%d size=%d compressible=%v", mode, p, limit, n, compressible)
